@@ -196,39 +196,6 @@ static const char *c11_class(const fcase_t *c) {
     return cls;
 }
 
-/* collapse digit runs so that layouts can be compared */
-static void shape_of(const char *s, char *o, size_t n) {
-    size_t k = 0;
-    for (; *s && k + 1 < n; s++) {
-        if (isdigit((unsigned char)*s)) { if (k == 0 || o[k - 1] != 'd') o[k++] = 'd'; }
-        else o[k++] = *s;
-    }
-    o[k] = 0;
-}
-
-static int float_text_ok(const fcase_t *c, const char *got, const char *ref) {
-    /* single floating directive formats only: compare layout, then value within one unit of the last printed digit */
-    char sa[256], sb[256];
-    const char *p, *q;
-    double va, vb, unit;
-    int fa = 0, fb = 0, ea = 0;
-    (void)c;
-    if (!strcmp(got, ref)) return 1;
-    shape_of(got, sa, sizeof sa); shape_of(ref, sb, sizeof sb);
-    if (strcmp(sa, sb)) return 0;
-    /* numeric field: first char that can start a number */
-    p = got; while (*p && !(isdigit((unsigned char)*p) || ((*p == '-' || *p == '+' || *p == '.') && isdigit((unsigned char)p[1])))) p++;
-    q = ref; while (*q && !(isdigit((unsigned char)*q) || ((*q == '-' || *q == '+' || *q == '.') && isdigit((unsigned char)q[1])))) q++;
-    if (!*p || !*q) return 0;
-    va = strtod(p, NULL); vb = strtod(q, NULL);
-    { const char *dot = strchr(p, '.'); if (dot) { dot++; while (isdigit((unsigned char)*dot)) { fa++; dot++; } } }
-    { const char *dot = strchr(q, '.'); if (dot) { dot++; while (isdigit((unsigned char)*dot)) { fb++; dot++; } } }
-    if (fa != fb) return 0;
-    { const char *e = strpbrk(p, "eE"); if (e) ea = atoi(e + 1); }
-    unit = pow(10.0, (double)(ea - fa));
-    return fabs(va - vb) <= unit * 1.0000001;
-}
-
 static void exec_c11(const void *k, res_t *r, const runcfg_t *cfg) {
     const fcase_t *c = k;
     const fent_t *e = &g_fent[c->ent];
@@ -242,12 +209,12 @@ static void exec_c11(const void *k, res_t *r, const runcfg_t *cfg) {
     res_label(r, e->sink == SK_BUF ? "sink:buffer" : (e->sink == SK_STREAM ? "sink:stream" : "sink:stdout"));
     if (FX.faulted) {
         r->fragile = 1;
-        RES_VIOL(r, "C11:%s:fault:%s", e->sink == SK_BUF ? "buffer" : "stream", c11_class(c));
+        RES_VIOL(r, "C11:%s:fault:signal-%d", e->sink == SK_BUF ? "buffer" : "stream", FX.sig); /* one key per sink: the format class says nothing about a crash */
         RES_DETAIL(r, "signal %d (%s) while formatting \"%s\"", FX.sig, FX.fault_write ? "store" : "load", FX.fmt);
         return;
     }
     if (FX.ref_len < 0 || FX.ref_len >= (int)sizeof FX.ref - 1) { res_label(r, "libc-declines"); return; }
-    if (nfloat && ndir > 1) { res_label(r, "float-with-other-directives(not judged)"); return; }
+    /* floating conversions are compared byte for byte like everything else (positive NaN only: the sign of a NaN is implementation-defined) */
     /* %lc with a null wide character: C defines it through %ls of {0, 0} (prints nothing), glibc writes a NUL byte: no reference */
     for (i = 0; i < c->nd; i++) if (c->d[i].conv == 'C' && c->d[i].vsel % 6 == 5) { res_label(r, "lc-NUL(no agreed reference)"); return; }
     cls = c11_class(c);
@@ -299,7 +266,7 @@ static void exec_c11(const void *k, res_t *r, const runcfg_t *cfg) {
                 return;
             }
             /* documented truncation: dest must hold the first dmax-1 characters */
-            if (!nfloat && (FX.dest[FX.dmax - 1] != 0 || memcmp(FX.dest, FX.ref, FX.dmax - 1) != 0)) { /* bytes, a %c NUL included */
+            if ((FX.dest[FX.dmax - 1] != 0 || memcmp(FX.dest, FX.ref, FX.dmax - 1) != 0)) { /* bytes, a %c NUL included */
                 RES_VIOL(r, "C11:%s:wrong-truncated-text:%s", ename, cls);
                 RES_DETAIL(r, "\"%s\": truncated to \"%.40s\", libc prefix \"%.*s\"", FX.fmt, (char *)FX.dest, (int)(FX.dmax - 1), FX.ref);
             }
@@ -310,19 +277,11 @@ static void exec_c11(const void *k, res_t *r, const runcfg_t *cfg) {
         outlen = FX.out_len;
         /* a NUL written by %c is part of the byte stream */
     }
-    if (nfloat == 0) {
-        if (outlen != (size_t)FX.ref_len || memcmp(FX.out, FX.ref, outlen) != 0) {
-            RES_VIOL(r, "C11:%s:text-differs:%s", ename, cls);
-            RES_DETAIL(r, "\"%s\": got \"%.60s\" (%zu), libc \"%.60s\" (%d)", FX.fmt, FX.out, outlen, FX.ref, FX.ref_len);
-            return;
-        }
-    } else if (nfloat == 1 && ndir == 1) {
-        if (!float_text_ok(c, FX.out, FX.ref)) {
-            RES_VIOL(r, "C11:%s:float-text-differs:%s", ename, cls);
-            RES_DETAIL(r, "\"%s\": got \"%.60s\", libc \"%.60s\"", FX.fmt, FX.out, FX.ref);
-            return;
-        }
-    } else { res_label(r, "multi-float(not compared)"); return; }
+    if (outlen != (size_t)FX.ref_len || memcmp(FX.out, FX.ref, outlen) != 0) {
+        RES_VIOL(r, "C11:%s:%stext-differs:%s", ename, nfloat ? "float-" : "", cls);
+        RES_DETAIL(r, "\"%s\": got \"%.60s\" (%zu), libc \"%.60s\" (%d)", FX.fmt, FX.out, outlen, FX.ref, FX.ref_len);
+        return;
+    }
     if (FX.ret != (int)outlen) {
         RES_VIOL(r, "C11:%s:wrong-count-returned:%s", ename, cls);
         RES_DETAIL(r, "\"%s\": returned %d but %zu characters were stored", FX.fmt, FX.ret, outlen);
